@@ -166,13 +166,19 @@ CLAIMS['C15'] = dict(
          'The bounded stand-in sourceview still runs through the public API (real Mutex / atomics).',
     design_ref='DESIGN.md 5 C15')
 CLAIMS['C17'] = dict(
-    text='PARTIAL: unbounded proof of the identifier layer (src/js_identifiers.rs): is_valid_start / is_valid_continue are the ECMA-262 classes of the statement ($, _, ASCII letters / digits, '
-         'ZWNJ / ZWJ, and the Unicode ID_Start / ID_Continue tables for non-ASCII characters only); strip_identifier returns the longest identifier a string starts with and nothing otherwise, its '
-         'byte index proved to be the UTF-8 offset after the last identifier character (so the slice can never fall inside a character: the D14 panic is excluded for every string); '
-         'is_valid_javascript_identifier holds exactly for strings that are one identifier; get_javascript_token is the identifier at the start of the first whitespace-separated word. '
-         'The backward token walk (RevTokenIter::next: cached line / UTF-16 column / byte offset) and the pairing loop of get_original_function_name are decided by the BOUNDED stand-in function_name only.',
-    note=_TB + 'Assumed: the Unicode tables of the unicode-id-start crate (two uninterpreted predicates), char::is_whitespace (uninterpreted), str::char_indices, split_whitespace().next(), &s[..n] at a '
-         'character offset (a precondition, i.e. proved at the call), Option::map_or. Bound of the stand-in: 8 generated programs, tokens at every UTF-16 column, every start token x 27 candidate names, plus the 128-token window.',
+    text='Unbounded proof for a view used by one thread (R-seq), for maps whose token columns are character positions of their line (never the second half of a surrogate pair): '
+         'the identifier layer (src/js_identifiers.rs): is_valid_start / is_valid_continue are the ECMA-262 classes of the statement ($, _, ASCII letters / digits, ZWNJ / ZWJ as continuation only, and the Unicode '
+         'ID_Start / ID_Continue tables for non-ASCII characters only); strip_identifier returns the longest identifier a string starts with and nothing otherwise, its byte index proved to be the UTF-8 '
+         'offset after the last identifier character (the D14 panic is excluded for every string); is_valid_javascript_identifier holds exactly for strings that are one identifier; get_javascript_token is '
+         'the identifier at the start of the first whitespace-separated word. The backward walk (RevTokenIter::next): each call yields the current token with its text read at the token\'s UTF-16 column of its '
+         'generated line -- the forward scan and the cached backward scan both land on the character boundary at that column -- then steps to the previous token, under a cache invariant (cached line, column and '
+         'byte offset agree). The pairing loop (SourceView::get_original_function_name): the result is the name attached to the FIRST step j of the walk (steps 0..min(128, idx+1)) whose token text is the given '
+         'identifier and whose predecessor, still among those 128 tokens, reads "function" -- nothing if there is no such step or the name is not an identifier; the text of a token is proved to be a function of the '
+         'line and the column (uniqueness lemmas), so "first" is well defined; the loop terminates and nothing can panic.',
+    note=_TB + 'Assumed: take(128).peekable() as a buffer of one item in front of at most 128 calls of the walker\'s next (prelude/shim_takepeek.rs; each inner call is assumed to satisfy the contract PROVED for RevTokenIter::next), '
+         'the Unicode tables of the unicode-id-start crate (two uninterpreted predicates), char::is_whitespace (uninterpreted), str::char_indices, chars / chars().rev(), split_whitespace().next(), &s[..n] / get(..n) / get(n..) at '
+         'character offsets, char::len_utf16, Option comparisons with Some(&str), the sequential cell model of Mutex / AtomicUsize. The one-line wrappers SourceMap / SourceMapIndex / DecodedMap::get_original_function_name '
+         '(lookup_token, proved in C04 / C08, then and_then with a closure that captures the view) are not under contract. Token columns inside a surrogate pair are outside the precondition. The bounded stand-in function_name still runs through the public API.',
     design_ref='DESIGN.md 5 C17')
 CLAIMS['C18'] = dict(
     text='PARTIAL: unbounded proof of the discovery and detection mechanisms (src/detector.rs): locate_sourcemap_reference returns, for the sequence of lines its reader yields, the reference '
@@ -219,7 +225,7 @@ NOT_APPLICABLE['C16'] = ('concurrency (interleavings of threads sharing a Source
 # parts of each property that no discharged obligation covers (reported in every evidence file, never counted)
 NOT_COVERED = {
     'C15': ['the sequential reading of Mutex / AtomicUsize is an assumption (R-seq); threads are C16', 'SourceView::from_string / clone (other constructors), Lines as an Iterator impl (verified as the inherent method, R-trait-inherent)', 'the unsafe lifetime extension of cached lines'],
-    'C17': ['RevTokenIter::next (backward walk with the cached line / column / byte offset): bounded stand-in function_name', 'SourceView::get_original_function_name pairing loop (take(128).peekable(), if_chain!): bounded', 'SourceMap / SourceMapIndex / DecodedMap::get_original_function_name wrappers'],
+    'C17': ['SourceMap / SourceMapIndex / DecodedMap::get_original_function_name wrappers (lookup_token + and_then with a capturing closure): bounded stand-in function_name', 'token columns that fall inside a surrogate pair (outside the precondition `aligned`): bounded only', 'std\'s Take / Peekable adapters (assumed contract over the walker\'s proved contract)'],
     'C18': ['how BufReader::lines cuts bytes into lines (std; assumed -- exercised by the bounded stand-in discover incl. texts larger than any buffer)', 'to_data_url / decode_data_url round trip (base64 of two crates): bounded', 'is_sourcemap / is_sourcemap_slice wiring around serde_json: bounded (header, discover)'],
     'C19': ['the std adapter chains inside make_relative_path are behind assumed contracts (split/filter/collect, sort_by_key, repeat/take/collect, join); the bounded stand-in relpath exercises the real ones', 'find_common_prefix (the rewrite "~" option): not part of C19'],
     'C20': ['scroll::Pread internals and the derive(Pread) expansion (assumed contracts; exercised by the bounded stand-in ram_bundle)', 'UnbundleRamBundle (file-system based variant)', 'split_ram_bundle / SplitRamBundleModuleIter (composition with flatten and SourceMapBuilder)', 'that Iterator::next of RamBundleModuleIter is the inherent body verified here (R-trait-inherent: same text, emitted outside the trait impl)'],
